@@ -2,6 +2,7 @@ package props
 
 import (
 	"astverif/errflow"
+	"astverif/extrarules"
 	"astverif/itersafe"
 	"astverif/pathint"
 	"astverif/report"
@@ -62,6 +63,13 @@ func c03(c *Ctx) {
 	tables.T1(c.P, r)
 	// reaching ErrNoMorePackets: an exhausted reader is never turned into a successful read of nothing
 	errflow.E4b(c.P, r)
+	// the packet buffer is dropped only by Rewind (which seeks to 0 itself): dropping it after an error makes the next call
+	// detect the packet size again, and a successful detection on a seekable reader rewinds to offset 0 — the stream
+	// would be replayed for ever instead of reaching ErrNoMorePackets
+	extrarules.WhoMayStoreField(c.P, r, "P8", "Demuxer.packetBuffer/dropped-by", "Demuxer", "packetBuffer", []string{"(*Demuxer).Rewind"}, 1, extrarules.IsNilConst, "nil stores",
+		"re-detecting the packet size after input was consumed rewinds a seekable reader to offset 0 (autoDetectPacketSize): no progress")
+	extrarules.WhoMayStoreField(c.P, r, "P8", "Demuxer.packetBuffer/stored-by", "Demuxer", "packetBuffer", []string{"(*Demuxer).Rewind", "(*Demuxer).NextPacket"}, 2, nil, "stores",
+		"the packet buffer is created lazily by NextPacket and dropped by Rewind only")
 	r.Floor("P5", "progress-on-error return classes of NextPacket", r.Counters["sites_P5"], 1)
 	r.Floor("P6", "declared-end loops", r.Counters["sites_P6"], 1)
 }
